@@ -310,6 +310,316 @@ reuse(FILE *o)
                 }
 }
 
+
+#include <setjmp.h>
+static sigjmp_buf reuse_jmp;
+static void
+reuse_segv(int sig)
+{
+        (void) sig;
+        siglongjmp(reuse_jmp, 1);
+}
+/* ---------- reuse, decompressor: (history, isal_inflate_reset) versus a fresh context, for several histories and follow-up uses ---------- */
+static size_t
+make_gzip(unsigned char *dst, size_t cap, const unsigned char *data, size_t n, int with_extra, int with_name, int with_comment, int hcrc)
+{
+        struct isal_zstream z;
+        struct isal_gzip_header h;
+        static unsigned char extra[40];
+        size_t i;
+        for (i = 0; i < sizeof(extra); i++)
+                extra[i] = (unsigned char) (i * 3 + 1);
+        isal_deflate_stateless_init(&z);
+        isal_gzip_header_init(&h);
+        if (with_extra) {
+                h.extra = extra;
+                h.extra_len = 4 + 20;
+                extra[0] = 'A';
+                extra[1] = 'p';
+                extra[2] = 20;
+                extra[3] = 0;
+                h.extra_buf_len = sizeof(extra);
+        }
+        if (with_name) {
+                h.name = "hello-world.txt";
+                h.name_buf_len = 16;
+        }
+        if (with_comment) {
+                h.comment = "a comment of some length";
+                h.comment_buf_len = 25;
+        }
+        h.hcrc = hcrc;
+        h.time = 0x01020304;
+        h.os = 3;
+        z.next_out = dst;
+        z.avail_out = cap;
+        if (isal_write_gzip_header(&z, &h) != 0)
+                return 0;
+        z.next_in = (unsigned char *) data;
+        z.avail_in = n;
+        z.end_of_stream = 1;
+        z.gzip_flag = IGZIP_GZIP_NO_HDR;
+        z.level = 0;
+        if (isal_deflate_stateless(&z) != COMP_OK)
+                return 0;
+        return cap - z.avail_out;
+}
+static size_t
+make_zlib(unsigned char *dst, size_t cap, const unsigned char *data, size_t n, int fdict)
+{
+        struct isal_zstream z;
+        struct isal_zlib_header h;
+        isal_deflate_stateless_init(&z);
+        isal_zlib_header_init(&h);
+        h.info = 7;
+        h.level = 1;
+        h.dict_flag = fdict;
+        h.dict_id = 0x0A0B0C0D;
+        z.next_out = dst;
+        z.avail_out = cap;
+        if (isal_write_zlib_header(&z, &h) != 0)
+                return 0;
+        z.next_in = (unsigned char *) data;
+        z.avail_in = n;
+        z.end_of_stream = 1;
+        z.gzip_flag = IGZIP_ZLIB_NO_HDR;
+        if (isal_deflate_stateless(&z) != COMP_OK)
+                return 0;
+        return cap - z.avail_out;
+}
+static size_t
+make_stored(unsigned char *dst, const unsigned char *data, size_t n)
+{ /* one final stored block */
+        dst[0] = 1;
+        dst[1] = n & 255;
+        dst[2] = n >> 8;
+        dst[3] = ~dst[1];
+        dst[4] = ~dst[2];
+        memcpy(dst + 5, data, n);
+        return n + 5;
+}
+struct obs {
+        unsigned char b[9000];
+        size_t n;
+};
+static void
+put(struct obs *o, const void *p, size_t n)
+{
+        if (o->n + n <= sizeof(o->b)) {
+                memcpy(o->b + o->n, p, n);
+                o->n += n;
+        }
+}
+static void
+put32(struct obs *o, uint32_t x)
+{
+        put(o, &x, 4);
+}
+static void
+inflate_rest(struct inflate_state *st, const unsigned char *in, size_t n, size_t chunk, size_t ochunk, struct obs *o)
+{
+        static unsigned char back[8000];
+        size_t fed = 0;
+        int ret = 0, guard = 0;
+        while (guard++ < 20000) {
+                if (st->avail_in == 0 && fed < n) {
+                        size_t c = n - fed < chunk ? n - fed : chunk;
+                        st->next_in = (unsigned char *) in + fed;
+                        st->avail_in = c;
+                        fed += c;
+                }
+                st->next_out = back;
+                st->avail_out = ochunk;
+                ret = isal_inflate(st);
+                put(o, back, ochunk - st->avail_out);
+                if (ret != ISAL_DECOMP_OK || st->block_state == ISAL_BLOCK_FINISH)
+                        break;
+                if (fed == n && st->avail_in == 0 && st->avail_out == ochunk)
+                        break;
+        }
+        put32(o, (uint32_t) ret);
+        put32(o, st->block_state);
+        put32(o, st->total_out);
+        put32(o, st->crc);
+}
+static void
+inflate_reuse(FILE *o)
+{
+        static unsigned char D[2500], E[1800], g_full[4000], g_name[4000], g_extra[4000], z_plain[4000], z_dict[4000], raw_stored[3000], bad[64];
+        size_t n_full, n_name, n_extra, n_zp, n_zd, n_rs;
+        int h, b, i;
+        for (i = 0; i < 2500; i++)
+                D[i] = "reset must equal fresh "[i % 23] ^ (unsigned char) (i >> 7);
+        for (i = 0; i < 1800; i++)
+                E[i] = (unsigned char) ((i * 11) ^ (i >> 3));
+        n_full = make_gzip(g_full, sizeof(g_full), D, 2500, 1, 1, 1, 1);
+        n_name = make_gzip(g_name, sizeof(g_name), E, 1800, 0, 1, 1, 0);
+        n_extra = make_gzip(g_extra, sizeof(g_extra), E, 900, 1, 0, 0, 0);
+        n_zp = make_zlib(z_plain, sizeof(z_plain), D, 2000, 0);
+        n_zd = make_zlib(z_dict, sizeof(z_dict), D, 600, 1);
+        n_rs = make_stored(raw_stored, E, 1500);
+        memset(bad, 0xff, sizeof(bad));
+        bad[0] = 0x07; /* BTYPE 3 */
+        for (b = 0; b < 6; b++)
+                for (h = 0; h < 10; h++) {
+                        struct inflate_state *st = malloc(sizeof(*st));
+                        struct isal_gzip_header gh;
+                        struct isal_zlib_header zh;
+                        static unsigned char nm[64], cm[64], ex[64], tmp[4000];
+                        struct obs ob;
+                        char name[64];
+                        int r;
+                        ob.n = 0;
+                        /* history 0: zeroed + init; 1: garbage + init; 2..9: init, do something else, isal_inflate_reset */
+                        memset(st, h == 1 ? 0xC3 : 0, sizeof(*st));
+                        isal_inflate_init(st);
+                        memset(nm, 0x55, sizeof(nm));
+                        memset(cm, 0x55, sizeof(cm));
+                        memset(ex, 0x55, sizeof(ex));
+                        if (h >= 2) {
+                                isal_gzip_header_init(&gh);
+                                gh.name = (char *) nm;
+                                gh.name_buf_len = sizeof(nm);
+                                gh.comment = (char *) cm;
+                                gh.comment_buf_len = sizeof(cm);
+                                gh.extra = ex;
+                                gh.extra_buf_len = sizeof(ex);
+                                st->next_out = tmp;
+                                st->avail_out = sizeof(tmp);
+                                switch (h) {
+                                case 2: /* gzip header parse abandoned in the middle of the name */
+                                        st->crc_flag = ISAL_GZIP;
+                                        st->next_in = g_name;
+                                        st->avail_in = 10 + 7;
+                                        isal_read_gzip_header(st, &gh);
+                                        break;
+                                case 3: /* ... in the middle of the extra field */
+                                        st->crc_flag = ISAL_GZIP;
+                                        st->next_in = g_extra;
+                                        st->avail_in = 10 + 2 + 9;
+                                        isal_read_gzip_header(st, &gh);
+                                        break;
+                                case 4: /* stream abandoned inside a stored block */
+                                        st->next_in = raw_stored;
+                                        st->avail_in = 700;
+                                        st->avail_out = 300;
+                                        isal_inflate(st);
+                                        break;
+                                case 5: /* zlib stream asking for a preset dictionary */
+                                        st->crc_flag = ISAL_ZLIB;
+                                        st->next_in = z_dict;
+                                        st->avail_in = n_zd;
+                                        isal_inflate(st);
+                                        break;
+                                case 6: /* a complete gzip member */
+                                        st->crc_flag = ISAL_GZIP;
+                                        st->next_in = g_full;
+                                        st->avail_in = n_full;
+                                        isal_inflate(st);
+                                        break;
+                                case 7: /* an invalid stream */
+                                        st->next_in = bad;
+                                        st->avail_in = sizeof(bad);
+                                        isal_inflate(st);
+                                        break;
+                                case 8: /* a dictionary, then half a stream with the output nearly full */
+                                        isal_inflate_set_dict(st, D, 1200);
+                                        st->crc_flag = ISAL_ZLIB;
+                                        st->next_in = z_plain;
+                                        st->avail_in = n_zp / 2;
+                                        st->avail_out = 33;
+                                        isal_inflate(st);
+                                        break;
+                                case 9: /* header through isal_inflate, split inside the comment; body not started */
+                                        st->crc_flag = ISAL_GZIP;
+                                        st->next_in = g_full;
+                                        st->avail_in = 10 + 2 + 24 + 16 + 5;
+                                        isal_inflate(st);
+                                        break;
+                                }
+                                isal_inflate_reset(st);
+                                memset(nm, 0x55, sizeof(nm));
+                                memset(cm, 0x55, sizeof(cm));
+                                memset(ex, 0x55, sizeof(ex));
+                        }
+                        /* parameters are the caller's and survive a reset: set every one of them for the follow-up use */
+                        st->next_in = NULL;
+                        st->avail_in = 0;
+                        st->hist_bits = 0;
+                        st->crc_flag = ISAL_DEFLATE;
+                        if (sigsetjmp(reuse_jmp, 1)) {
+                                sprintf(name, "inflate-use%d-history%d", b, h);
+                                ob.n = 0;
+                                put32(&ob, 0xdeadbeef); /* crashed */
+                                dump(o, name, ob.b, ob.n, -11);
+                                continue;
+                        }
+                        switch (b) {
+                        case 0: /* header read directly into caller buffers (name + comment, no extra), then the body */
+                        case 1: /* the same with every optional field */
+                                isal_gzip_header_init(&gh);
+                                gh.name = (char *) nm;
+                                gh.name_buf_len = sizeof(nm);
+                                gh.comment = (char *) cm;
+                                gh.comment_buf_len = sizeof(cm);
+                                gh.extra = ex;
+                                gh.extra_buf_len = sizeof(ex);
+                                st->crc_flag = ISAL_GZIP;
+                                st->next_in = b ? g_full : g_name;
+                                st->avail_in = b ? n_full : n_name;
+                                r = isal_read_gzip_header(st, &gh);
+                                put32(&ob, (uint32_t) r);
+                                put(&ob, nm, sizeof(nm));
+                                put(&ob, cm, sizeof(cm));
+                                put(&ob, ex, sizeof(ex));
+                                put32(&ob, gh.extra_len);
+                                put32(&ob, gh.flags);
+                                put32(&ob, gh.time);
+                                put32(&ob, gh.os);
+                                put32(&ob, st->avail_in);
+                                if (r == ISAL_DECOMP_OK) {
+                                        const unsigned char *p = st->next_in;
+                                        size_t left = st->avail_in;
+                                        st->avail_in = 0;
+                                        inflate_rest(st, p, left, 100, 257, &ob);
+                                }
+                                break;
+                        case 2: /* whole gzip member through isal_inflate, 7-byte input pieces */
+                                st->crc_flag = ISAL_GZIP;
+                                inflate_rest(st, g_full, n_full, 7, 50, &ob);
+                                break;
+                        case 3: /* zlib, header read directly */
+                                isal_zlib_header_init(&zh);
+                                st->crc_flag = ISAL_ZLIB;
+                                st->next_in = z_dict;
+                                st->avail_in = n_zd;
+                                r = isal_read_zlib_header(st, &zh);
+                                put32(&ob, (uint32_t) r);
+                                put32(&ob, zh.info);
+                                put32(&ob, zh.level);
+                                put32(&ob, zh.dict_id);
+                                put32(&ob, zh.dict_flag);
+                                {
+                                        const unsigned char *p = st->next_in;
+                                        size_t left = st->avail_in;
+                                        st->avail_in = 0;
+                                        inflate_rest(st, p, left, 64, 300, &ob);
+                                }
+                                break;
+                        case 4: /* raw stored block, 1-byte output pieces first */
+                                inflate_rest(st, raw_stored, n_rs, 13, 1, &ob);
+                                break;
+                        case 5: /* zlib through isal_inflate, large pieces */
+                                st->crc_flag = ISAL_ZLIB;
+                                inflate_rest(st, z_plain, n_zp, 1000, 4000, &ob);
+                                break;
+                        }
+                        sprintf(name, "inflate-use%d-history%d", b, h);
+                        dump(o, name, ob.b, ob.n, 0);
+                        free(st);
+                }
+}
+
 int
 main(int argc, char **argv)
 {
@@ -371,6 +681,9 @@ main(int argc, char **argv)
         if (!strcmp(argv[1], "reuse")) {
                 FILE *o = fopen(argv[2], "w");
                 reuse(o);
+                signal(SIGSEGV, reuse_segv);
+                signal(SIGBUS, reuse_segv);
+                inflate_reuse(o);
                 fclose(o);
                 return 0;
         }
